@@ -164,7 +164,11 @@ func (m *model) call(i int, chain []int, unw *[]int, alias int) ([]uint64, *fail
 		return nil, f
 	}
 	for _, c := range m.t.children(i) {
-		switch m.t[c].Kind {
+		k := m.t[c].Kind
+		if isTailKind(k) {
+			k = 't'
+		}
+		switch k {
 		case 'r':
 			// fresh call boundary: own stack, own unwinding
 			var inner []int
@@ -252,7 +256,7 @@ func runModel(t Tree, sigs []sig, listen func(int) bool, o modelOpts) ([]event, 
 func (t Tree) tailNodes() []int {
 	var o []int
 	for i := range t {
-		if t[i].Kind == 't' {
+		if isTailKind(t[i].Kind) {
 			o = append(o, i)
 		}
 	}
